@@ -34,6 +34,7 @@ def mapErr : Expr.Err → Err
   | .circular => .circular
   | .invalidData => .invalidData
   | .reference => .reference
+  | .depthLimit => .exprDepth
   | _ => .other
 
 /-- `EvalState::element_ref`: `#id~scalar` against the geometry context -/
